@@ -138,26 +138,44 @@ theorem C07_fixed_equivariant (loc scale cost qA : ℝ) (qU : Option ℝ) (cdf :
       rw [← hu]; ring
   · rw [← mul_sub, mul_div_mul_left _ _ hba.ne']
 
-/-- scenario detection `float_order(total) < -10`, i.e. |total| < 1e-10 (or total = 0): for
-non-negative costs each either 0 or ≥ 1e-10 the total is "small" iff all costs are 0 -/
-theorem C07_scenario (costs : List ℝ) (h : ∀ c ∈ costs, c = 0 ∨ (1e-10 : ℝ) ≤ c) :
-    costs.sum < 1e-10 ↔ ∀ c ∈ costs, c = 0 := by
+/-- scenario detection `float_order(total) < -10`, i.e. total < 1e-10, where `total` is the sum of the cost
+*magnitudes* (repaired tree): if every cost is either 0 or at least 1e-10 in magnitude, the total is "small"
+iff all costs are 0 — whatever their signs -/
+theorem C07_scenario (costs : List ℝ) (h : ∀ c ∈ costs, c = 0 ∨ (1e-10 : ℝ) ≤ |c|) :
+    (costs.map (fun c => |c|)).sum < 1e-10 ↔ ∀ c ∈ costs, c = 0 := by
   have hpos : (0 : ℝ) < 1e-10 := by norm_num
   constructor
   · intro hsum c hc
     rcases h c hc with h0 | hge
     · exact h0
     · exfalso
-      have hnn : ∀ x ∈ costs, 0 ≤ x := by
+      have hnn : ∀ x ∈ costs.map (fun c => |c|), 0 ≤ x := by
         intro x hx
-        rcases h x hx with h | h
-        · rw [h]
-        · linarith
-      have : c ≤ costs.sum := List.single_le_sum hnn c hc
+        obtain ⟨y, _, rfl⟩ := List.mem_map.1 hx
+        exact abs_nonneg y
+      have : |c| ≤ (costs.map (fun c => |c|)).sum :=
+        List.single_le_sum hnn |c| (List.mem_map.2 ⟨c, hc, rfl⟩)
       linarith
   · intro hall
-    rw [List.sum_eq_zero hall]
+    have : ∀ x ∈ costs.map (fun c => |c|), x = 0 := by
+      intro x hx
+      obtain ⟨y, hy, rfl⟩ := List.mem_map.1 hx
+      rw [hall y hy, abs_zero]
+    rw [List.sum_eq_zero this]
     exact hpos
+
+/-- the signed sum the original code used does not detect non-zero costs: +5 and −5 sum to zero
+(the defect repaired in /repo commit 8480f7a) -/
+theorem C07_scenario_signed_sum_fails :
+    ∃ costs : List ℝ, (∀ c ∈ costs, c = 0 ∨ (1e-10 : ℝ) ≤ |c|) ∧ costs.sum < 1e-10 ∧ ¬ ∀ c ∈ costs, c = 0 := by
+  refine ⟨[5, -5], ?_, ?_, ?_⟩
+  · intro c hc
+    simp only [List.mem_cons, List.not_mem_nil, or_false] at hc
+    rcases hc with rfl | rfl <;> right <;> norm_num
+  · norm_num
+  · intro h
+    have := h 5 (by simp)
+    norm_num at this
 
 /-! ## C18, effect series
 
